@@ -384,6 +384,11 @@ func (m Message) ErrorMessage() string {
 }
 
 func (m Message) Data() plugintypes.AuditLogMessageData {
+	if m.Data_ == nil {
+		// A message recorded for part H without part K carries only the error message:
+		// hand out empty details rather than a nil *MessageData wrapped in the interface.
+		return &MessageData{}
+	}
 	return m.Data_
 }
 
